@@ -100,7 +100,8 @@ class C13(Property):
                 last = r
                 events.append(["pull", r])
         # the consumer may declare a later start time than the source: the link's start time is the source's
-        return dict(chain=chain, start=start, events=events, cons_offset=rnd.choice([0, 0, 0, 3, 8]))
+        return dict(chain=chain, start=start, events=events, cons_offset=rnd.choice([0, 0, 0, 3, 8]),
+                    sink="push" if (rnd.random() < 0.2 and not any(c[0] == "pull" for c in chain)) else "pull")
 
     def _composition(self, spec):
         from .. import sched_run
@@ -144,7 +145,13 @@ class C13(Property):
 
         o.get_data = spy  # public entry point of the source, wrapped on this instance
         ads, models = build(spec["chain"], start)
-        inp = fm.Input(name="in", info=info.copy_with(time=slots.t(start + spec.get("cons_offset", 0))))
+        notified = []
+        if spec.get("sink") == "push":
+            # push-type consumer: pulls the notified time inside its notification callback
+            inp = fm.CallbackInput(lambda caller, time: notified.append((slots.sec(time), caller.pull_data(time))), name="in",
+                                   info=info.copy_with(time=slots.t(start + spec.get("cons_offset", 0))))
+        else:
+            inp = fm.Input(name="in", info=info.copy_with(time=slots.t(start + spec.get("cons_offset", 0))))
         if spec.get("cons_offset"):
             out.count("consumer_declares_later_start")
         slots.wire(o, ads, [inp])
@@ -163,13 +170,43 @@ class C13(Property):
                 else:
                     next_id += 1
                     val = 1000.0 + next_id
-                o.push_data(val, slots.t(t))
+                notified.clear()
                 hist.push(t, F(val))
                 ids[t] = val
                 for m in models:
                     if isinstance(m, DelayToPushModel):
                         m.pushed(t)
+                try:
+                    o.push_data(val, slots.t(t))
+                except (fm.FinamTimeError, fm.FinamNoDataError) as e:
+                    if spec.get("sink") == "push":
+                        # the model says which time reaches the source; refusal is judged below only if it was servable
+                        cur = t
+                        for m in reversed(models):
+                            if m is not None:
+                                cur = m.request(cur)
+                        if hist.in_range(cur) and t >= start:
+                            out.viol("pull_in_notification_refused", f"pull for the notified time {t}s inside the notification failed although the shifted time {cur}s is published: {e}", spec=spec)
+                            return out
+                        out.count("publications")
+                        continue
+                    raise
                 out.count("publications")
+                if spec.get("sink") == "push" and notified:
+                    cur = t
+                    for m in reversed(models):
+                        if m is not None:
+                            cur = m.request(cur)
+                    got_val = float(np.asarray(notified[-1][1].magnitude).ravel()[0])
+                    if t < start:
+                        cur = min(cur, t)  # before the link start the delivered data is compared (see assumptions)
+                    acc = {float(hist.v[i]) for i in hist.nearest(cur)}
+                    out.count("pulls_in_notification")
+                    if got_val not in acc:
+                        out.viol("delivered_data_in_notification", f"pull at the just notified time {t}s through {spec['chain']} delivered id {got_val}; the source's data for the shifted time {cur}s is {sorted(acc)}", spec=spec)
+                        return out
+                continue
+            if spec.get("sink") == "push":
                 continue
             r = ev[1]
             # model walk: consumer side -> source side (reverse of the listed chain)
@@ -226,7 +263,7 @@ class C13(Property):
     def coverage_gaps(self, counters, tier):
         need = ["pulls", "time_at_source_compared", "pulls_before_start_data_compared", "served_shifted", "refused_out_of_range",
                 "chains_with_1_delays", "chains_with_2_delays", "chains_with_3_delays",
-                "driver_requests_compared", "compositions_with_multi_delay_links", "consumer_declares_later_start"]
+                "driver_requests_compared", "compositions_with_multi_delay_links", "consumer_declares_later_start", "pulls_in_notification"]
         return [f"{k} never observed" for k in need if not counters.get(k)]
 
 
